@@ -256,6 +256,19 @@ def rule_R1(ctx, repo, flow):
     ctx.check(ok, "R1", "_split_by_fh:check_equal_time_index", "indices of y and X compared whenever X is given",
               "check_equal_time_index is not called when X is given", ctx.loc(m, sb))
     _raw_data_args(ctx, repo, m, sb, "check_equal_time_index", ("y", "X"), "_split_by_fh")
+    # ... on every path that hands back a result while X is given (an early return must not bypass the comparison)
+    from ..boolx import implies as _imp5, atoms_of as _ao5
+    pcm = PathConditions(sb, Atomizer(), mark=lambda st: not isinstance(st, (ast.If, ast.For, ast.While, ast.With, ast.Try)) and any(
+        astq.call_name(c_) == "check_equal_time_index" for c_ in astq.calls(st)))
+    called = FALSE
+    for _st, _c in pcm.marked:
+        called = disj(called, _c)
+    xn = [a_ for a_ in _ao5(disj(called, pcm.returns)) if a_.startswith("isnone(X")]
+    if len(xn) == 1 and pcm.marked:
+        r5, w5 = _imp5(conj(pcm.returns, neg(atom(xn[0]))), called)
+        ctx.check(bool(r5), "R1", "_split_by_fh:check_equal_time_index:every-path", "no result is returned for a given X before the indices were compared",
+                  "_split_by_fh can return a result with X given on a path that never compared the indices of y and X (case %s): a misaligned "
+                  "X is accepted" % (w5,), ctx.loc(m, sb), witness=w5)
     # a relative horizon with in-sample steps is rejected (path condition: relative & not all-out-of-sample -> raise)
     from ..boolx import atoms_of as _ao3, evaluate as _ev3
     pcs = PathConditions(sb, Atomizer())
